@@ -338,6 +338,128 @@ pub fn gen_value(rng: &mut Rng, dt: DT, n: usize, cfg: &Cfg) -> Vec<u8> {
     }
 }
 
+/// A redefinition that differs from the cached definition as little as possible (identical refresh,
+/// two fields swapped, one type number replaced by another of the same data type, one width
+/// re-drawn): what a "skip the cache update when nothing changed" shortcut has to get right.
+fn near_identical_v9(rng: &mut Rng, old: &[(u16, u16)], pools: &Pools) -> Vec<(u16, u16)> {
+    let mut f = old.to_vec();
+    if f.is_empty() {
+        return vec![(1, 4)];
+    }
+    match rng.below(5) {
+        0 => {}
+        1 if f.len() > 1 => {
+            let i = rng.usize(f.len() - 1);
+            f.swap(i, i + 1);
+        }
+        2 => {
+            let i = rng.usize(f.len());
+            let dt = v9_dt(f[i].0);
+            let same: Vec<u16> = pools.v9_known.iter().cloned().filter(|t| v9_dt(*t) == dt && *t != f[i].0).collect();
+            if !same.is_empty() {
+                f[i].0 = *rng.pick(&same);
+            }
+        }
+        3 => {
+            let i = rng.usize(f.len());
+            let w = supported_widths(v9_dt(f[i].0));
+            if !w.is_empty() {
+                f[i].1 = *rng.pick(w);
+            } else {
+                f[i].1 = 1 + (f[i].1 % 16);
+            }
+        }
+        _ => {
+            // one field more or one less
+            if f.len() > 1 && rng.chance(1, 2) {
+                f.pop();
+            } else {
+                f.push((1, 4));
+            }
+        }
+    }
+    f
+}
+
+fn near_identical_ipfix(rng: &mut Rng, old: &[IpfixSpec], pools: &Pools, cfg: &Cfg) -> Vec<IpfixSpec> {
+    let mut f = old.to_vec();
+    if f.is_empty() {
+        return vec![IpfixSpec { type_num: 1, len: 4, enterprise: None }];
+    }
+    match rng.below(7) {
+        0 => {}
+        1 if f.len() > 1 => {
+            let i = rng.usize(f.len() - 1);
+            f.swap(i, i + 1);
+        }
+        2 | 3 if !cfg.enterprise => {}
+        2 => {
+            // only the enterprise-ness of one field flips (element id and length stay)
+            let i = rng.usize(f.len());
+            match f[i].enterprise {
+                None => f[i].enterprise = Some(*rng.pick(&[29305u32, 9, 0, 1, 35632])),
+                Some(_) => {
+                    let dt = ipfix_dt(f[i].type_num);
+                    let w = supported_widths(dt);
+                    if dt != DT::Unknown && (w.is_empty() || w.contains(&f[i].len)) {
+                        f[i].enterprise = None;
+                    } else {
+                        f[i].enterprise = Some(rng.b32());
+                    }
+                }
+            }
+        }
+        3 => {
+            // only an enterprise number changes
+            if let Some(x) = f.iter_mut().find(|x| x.enterprise.is_some()) {
+                x.enterprise = Some(x.enterprise.unwrap().wrapping_add(1));
+            } else {
+                let i = rng.usize(f.len());
+                f[i].enterprise = Some(9);
+            }
+        }
+        4 => {
+            let i = rng.usize(f.len());
+            if f[i].enterprise.is_none() {
+                let dt = ipfix_dt(f[i].type_num);
+                let same: Vec<u16> = pools.ipfix_known.iter().cloned().filter(|t| ipfix_dt(*t) == dt && *t != f[i].type_num).collect();
+                if !same.is_empty() {
+                    f[i].type_num = *rng.pick(&same);
+                }
+            } else {
+                f[i].type_num = (f[i].type_num + 1) & 0x7fff;
+            }
+        }
+        5 => {
+            let i = rng.usize(f.len());
+            if f[i].enterprise.is_none() {
+                let w = supported_widths(ipfix_dt(f[i].type_num));
+                if !w.is_empty() {
+                    f[i].len = *rng.pick(w);
+                } else if f[i].len != 65535 {
+                    f[i].len = 1 + (f[i].len % 16);
+                }
+            } else if f[i].len != 65535 {
+                f[i].len = 1 + (f[i].len % 16);
+            }
+        }
+        _ => {
+            if f.len() > 1 && rng.chance(1, 2) {
+                f.pop();
+            } else {
+                f.push(IpfixSpec { type_num: 1, len: 4, enterprise: None });
+            }
+        }
+    }
+    // the library's validity rule: at least one field with a non-zero length
+    if f.iter().all(|x| x.len == 0) {
+        f[0].len = 4;
+        f[0].type_num = 1;
+        f[0].enterprise = None;
+    }
+    f
+}
+
 impl Exporter {
     pub fn new() -> Exporter {
         Exporter::default()
@@ -397,6 +519,13 @@ impl Exporter {
         let nf_max = if rng.chance(1, 10) { cfg.max_fields.max(1) * 3 } else { cfg.max_fields.max(1) };
         let nf = 1 + rng.usize(nf_max);
         let mut fields: Vec<(u16, u16)> = (0..nf).map(|_| self.v9_field(rng, cfg, pools)).collect();
+        if !cfg.projected {
+            if let Some(old) = self.v9_t.get(&id) {
+                if rng.chance(1, 3) {
+                    fields = near_identical_v9(rng, &old.fields, pools);
+                }
+            }
+        }
         if fields.iter().all(|f| f.1 == 0) {
             fields[0] = (1, 4);
         }
@@ -444,6 +573,31 @@ impl Exporter {
                 (t, 1 + rng.below(8) as u16)
             })
             .collect();
+        let (scope, opts) = match self.v9_o.get(&id) {
+            Some(old) if rng.chance(1, 3) => {
+                // a redefinition that differs from the cached one as little as possible
+                let mut sc = old.scope.clone();
+                let mut op = old.opts.clone();
+                match rng.below(4) {
+                    0 => {}
+                    1 if sc.len() > 1 => {
+                        // same specifiers, the scope / option split moves by one
+                        let f = sc.pop().unwrap();
+                        op.insert(0, (1 + (f.0 % 5), f.1));
+                    }
+                    2 => {
+                        let i = rng.usize(op.len());
+                        op[i].1 = 1 + (op[i].1 % 8);
+                    }
+                    _ => {
+                        let i = rng.usize(sc.len());
+                        sc[i].0 = 1 + (sc[i].0 % 5);
+                    }
+                }
+                (sc, op)
+            }
+            _ => (scope, opts),
+        };
         let t = V9OptTmpl { id, scope, opts };
         self.v9_t.remove(&id);
         self.v9_o.insert(id, t.clone());
@@ -661,15 +815,37 @@ impl Exporter {
 
     pub fn ipfix_new_template(&mut self, rng: &mut Rng, cfg: &Cfg, pools: &Pools) -> IpfixTmpl {
         let id = self.ix_free_id(rng, cfg, false);
-        let t = IpfixTmpl { id, fields: self.ipfix_specs(rng, cfg, pools) };
+        let mut fields = self.ipfix_specs(rng, cfg, pools);
+        if !cfg.projected {
+            if let Some(old) = self.ix_t.get(&id) {
+                if rng.chance(1, 3) {
+                    fields = near_identical_ipfix(rng, &old.fields, pools, cfg);
+                }
+            }
+        }
+        let t = IpfixTmpl { id, fields };
         self.ix_o.remove(&id);
         self.ix_t.insert(id, t.clone());
         t
     }
     pub fn ipfix_new_opt_template(&mut self, rng: &mut Rng, cfg: &Cfg, pools: &Pools) -> IpfixOptTmpl {
         let id = self.ix_free_id(rng, cfg, true);
-        let fields = self.ipfix_specs(rng, cfg, pools);
-        let scope_count = 1 + rng.usize(fields.len()) as u16;
+        let mut fields = self.ipfix_specs(rng, cfg, pools);
+        let mut scope_count = 1 + rng.usize(fields.len()) as u16;
+        if !cfg.projected {
+            if let Some(old) = self.ix_o.get(&id) {
+                if rng.chance(1, 3) {
+                    if rng.chance(1, 3) && old.fields.len() > 1 {
+                        // same field list, only the scope count differs
+                        fields = old.fields.clone();
+                        scope_count = 1 + (old.scope_count % old.fields.len() as u16);
+                    } else {
+                        fields = near_identical_ipfix(rng, &old.fields, pools, cfg);
+                        scope_count = old.scope_count.min(fields.len() as u16).max(1);
+                    }
+                }
+            }
+        }
         let t = IpfixOptTmpl { id, scope_count, fields };
         self.ix_t.remove(&id);
         self.ix_o.insert(id, t.clone());
